@@ -79,28 +79,141 @@ impl Acc {
 // real code
 // ------------------------------------------------------------------------------------------
 
+/// How the run is told to use the retain_lines generator and where its configuration comes
+/// from: every way must behave the same.
+#[derive(Debug, Clone, Copy, PartialEq, Eq, Hash)]
+pub enum ConfigMode {
+    /// `Options::with_configuration`, the configuration omits the generator (retain_lines is the default)
+    ApiDefault,
+    /// `Options::with_configuration`, the configuration says `generator: 'retain_lines'`
+    ApiRetainLines,
+    /// the configuration names `dense`, `Options::with_generator_override(RetainLines)` selects retain_lines
+    OverrideOverDense,
+    /// the configuration names `readable` (with a column span), overridden in the same way
+    OverrideOverReadable,
+    /// a `.darklua.json` file in the resources (found by default), naming retain_lines
+    FileJson,
+    /// a `.darklua.json5` file in the resources, generator omitted
+    FileJson5Default,
+    /// a `.darklua.json` file naming `dense`, plus the generator override
+    FileOverrideOverDense,
+    /// a configuration file at a custom path given with `Options::with_configuration_at`
+    FileAtPath,
+}
+
+impl ConfigMode {
+    pub const ALL: [ConfigMode; 8] = [
+        ConfigMode::ApiDefault,
+        ConfigMode::ApiRetainLines,
+        ConfigMode::OverrideOverDense,
+        ConfigMode::OverrideOverReadable,
+        ConfigMode::FileJson,
+        ConfigMode::FileJson5Default,
+        ConfigMode::FileOverrideOverDense,
+        ConfigMode::FileAtPath,
+    ];
+    pub fn name(self) -> &'static str {
+        match self {
+            ConfigMode::ApiDefault => "api:default-generator",
+            ConfigMode::ApiRetainLines => "api:retain_lines",
+            ConfigMode::OverrideOverDense => "api:dense+override",
+            ConfigMode::OverrideOverReadable => "api:readable+override",
+            ConfigMode::FileJson => "file:.darklua.json",
+            ConfigMode::FileJson5Default => "file:.darklua.json5(default-generator)",
+            ConfigMode::FileOverrideOverDense => "file:.darklua.json(dense)+override",
+            ConfigMode::FileAtPath => "file:with_configuration_at",
+        }
+    }
+    pub fn from_name(name: &str) -> Option<ConfigMode> {
+        ConfigMode::ALL.iter().copied().find(|m| m.name() == name)
+    }
+    /// a deterministic choice from the case itself
+    pub fn of_case<K: std::hash::Hash>(key: &K) -> ConfigMode {
+        ConfigMode::ALL[(crate::report::hash_of(key) % ConfigMode::ALL.len() as u64) as usize]
+    }
+    /// the generator the configuration text names (None = omitted)
+    fn named_generator(self) -> Option<&'static str> {
+        match self {
+            ConfigMode::ApiDefault | ConfigMode::FileJson5Default => None,
+            ConfigMode::ApiRetainLines | ConfigMode::FileJson | ConfigMode::FileAtPath => Some("'retain_lines'"),
+            ConfigMode::OverrideOverDense | ConfigMode::FileOverrideOverDense => Some("'dense'"),
+            ConfigMode::OverrideOverReadable => Some("{name: 'readable', column_span: 60}"),
+        }
+    }
+    fn overrides(self) -> bool {
+        matches!(
+            self,
+            ConfigMode::OverrideOverDense | ConfigMode::OverrideOverReadable | ConfigMode::FileOverrideOverDense
+        )
+    }
+}
+
+/// `darklua_core::process` on memory resources, entry -> output, with a json5 configuration body
+/// that does NOT name a generator (`{rules: [...], bundle: ...}`); the mode decides how
+/// retain_lines is selected and how the configuration reaches the worker.
+pub fn process_with_mode(
+    resources: &Resources,
+    entry: &str,
+    output: &str,
+    config_json5: &str,
+    mode: ConfigMode,
+) -> Result<Result<darklua_core::WorkerTree, darklua_core::DarkluaError>, String> {
+    let text = match mode.named_generator() {
+        Some(generator) => {
+            let body = config_json5.trim();
+            let inner = body.strip_prefix('{').ok_or("configuration text must be an object")?;
+            format!("{{generator: {}, {}", generator, inner)
+        }
+        None => config_json5.to_owned(),
+    };
+    let mut options = Options::new(entry).with_output(output);
+    match mode {
+        ConfigMode::ApiDefault
+        | ConfigMode::ApiRetainLines
+        | ConfigMode::OverrideOverDense
+        | ConfigMode::OverrideOverReadable => {
+            let config: Configuration = json5::from_str(&text).map_err(|e| e.to_string())?;
+            options = options.with_configuration(config);
+        }
+        ConfigMode::FileJson | ConfigMode::FileOverrideOverDense => {
+            resources.write(".darklua.json", &text).map_err(|e| format!("{:?}", e))?;
+        }
+        ConfigMode::FileJson5Default => {
+            resources.write(".darklua.json5", &text).map_err(|e| format!("{:?}", e))?;
+        }
+        ConfigMode::FileAtPath => {
+            resources.write("conf/custom.json5", &text).map_err(|e| format!("{:?}", e))?;
+            options = options.with_configuration_at("conf/custom.json5");
+        }
+    }
+    if mode.overrides() {
+        options = options.with_generator_override(darklua_core::GeneratorParameters::RetainLines);
+    }
+    std::panic::catch_unwind(std::panic::AssertUnwindSafe(|| darklua_core::process(resources, options)))
+        .map_err(|_| "panic".to_owned())
+}
+
 /// Run the real pipeline (`darklua_core::process`) on one in-memory file with a json5
 /// configuration; returns the output text and the writer trace of the token-based generator.
 pub fn real_process(code: &str, config_json5: &str) -> Result<(String, Vec<TraceOp>), String> {
+    real_process_mode(code, config_json5, ConfigMode::ApiDefault)
+}
+
+pub fn real_process_mode(
+    code: &str,
+    config_json5: &str,
+    mode: ConfigMode,
+) -> Result<(String, Vec<TraceOp>), String> {
     let resources = Resources::from_memory();
     resources
         .write("src/main.lua", code)
         .map_err(|e| format!("{:?}", e))?;
-    let config: Configuration = json5::from_str(config_json5).map_err(|e| e.to_string())?;
     trace_start();
-    let result = std::panic::catch_unwind(std::panic::AssertUnwindSafe(|| {
-        darklua_core::process(
-            &resources,
-            Options::new("src/main.lua")
-                .with_output("out/main.lua")
-                .with_configuration(config),
-        )
-    }));
+    let result = process_with_mode(&resources, "src/main.lua", "out/main.lua", config_json5, mode);
     let trace = trace_take();
-    match result {
-        Err(_) => Err("panic".to_owned()),
-        Ok(Err(e)) => Err(format!("error: {}", e)),
-        Ok(Ok(tree)) => {
+    match result? {
+        Err(e) => Err(format!("error: {}", e)),
+        Ok(tree) => {
             let errors = tree.collect_errors();
             if !errors.is_empty() {
                 return Err(format!(
@@ -1564,8 +1677,8 @@ pub fn model_replay(model: &mut Model, items: &[String]) -> Result<ModelRun, Str
 
 /// Does this source break the oracle (output != input although inside H3 and a tiling)?
 /// Returns Some(description) when it does. Used by the search after a correspondence break.
-fn oracle_fails(model: &mut Model, code: &str) -> Option<String> {
-    let (out, trace) = real_process(code, EMPTY_RULES).ok()?;
+fn oracle_fails(model: &mut Model, code: &str, mode: ConfigMode) -> Option<String> {
+    let (out, trace) = real_process_mode(code, EMPTY_RULES, mode).ok()?;
     if out == code {
         return None;
     }
@@ -1591,7 +1704,21 @@ pub fn check_source(
     last_semicolons: u32,
     label: &str,
 ) -> bool {
-    let (out, trace) = match real_process(code, EMPTY_RULES) {
+    // the way the empty rule list and retain_lines reach the worker is part of the case
+    check_source_mode(report, model, code, typed, last_semicolons, label, ConfigMode::of_case(&code))
+}
+
+pub fn check_source_mode(
+    report: &mut Acc,
+    model: &mut Model,
+    code: &str,
+    typed: bool,
+    last_semicolons: u32,
+    label: &str,
+    mode: ConfigMode,
+) -> bool {
+    report.hist("configuration", mode.name());
+    let (out, trace) = match real_process_mode(code, EMPTY_RULES, mode) {
         Ok(x) => x,
         Err(e) => {
             if e == "panic" {
@@ -1599,7 +1726,7 @@ pub fn check_source(
                     kind: "oracle".into(),
                     check: "no-panic".into(),
                     what: "processing with an empty rule list panicked".into(),
-                    input: json!({"kind": "source", "code": code, "config": EMPTY_RULES}),
+                    input: json!({"kind": "source", "code": code, "config": EMPTY_RULES, "config_mode": mode.name()}),
                     failing_input_found: true,
                 });
             }
@@ -1611,7 +1738,7 @@ pub fn check_source(
         }
     };
     let input = json!({"kind": "source", "code": code, "config": EMPTY_RULES, "typed": typed,
-        "last_semicolons": last_semicolons});
+        "last_semicolons": last_semicolons, "config_mode": mode.name()});
     let enc = match encode_trace(&trace) {
         Ok(e) => e,
         Err(e) => {
@@ -1640,7 +1767,7 @@ pub fn check_source(
         }
     };
     if let Some(diff) = compare_run(&out, &enc, &m) {
-        let found = out != code && oracle_fails(model, code).is_some();
+        let found = out != code && oracle_fails(model, code, mode).is_some();
         report.violation(Violation {
             kind: if found { "oracle".into() } else { "correspondence".into() },
             check: "trace-replay(parsed)".into(),
@@ -1983,6 +2110,7 @@ pub const FIXED_SOURCES: &[&str] = &[
 ];
 
 const TYPED_SOURCES: &[&str] = &[
+    "obj:m<<T>>()\nlocal r = obj :\n  m << number , string >> ( 1 )\nreturn f<<T>>(2)",
     "local object = value :: Object\n(object.run)(object)\nx = a.b :: T\n(x :: any)()\ny += f() :: number\n(y)()",
     "local a: number = 1\nlocal b : string? = nil\nreturn a :: any",
     "type T = { x: number, y: string } | nil\nexport type U<V> = (V) -> V\nlocal function f<T>(a: T, ...: number): T return a end",
@@ -2012,13 +2140,14 @@ pub fn run(report: &mut Report, replay: Option<&str>) {
             Some("source") => {
                 let code = input["code"].as_str().unwrap_or("");
                 let mut acc = Acc::default();
-                check_source(
+                check_source_mode(
                     &mut acc,
                     &mut model,
                     code,
                     input["typed"].as_bool().unwrap_or(false),
                     input["last_semicolons"].as_u64().unwrap_or(0) as u32,
                     "replay",
+                    input["config_mode"].as_str().and_then(ConfigMode::from_name).unwrap_or(ConfigMode::of_case(&code)),
                 );
                 acc.flush(report);
             }
@@ -2063,7 +2192,9 @@ pub fn run(report: &mut Report, replay: Option<&str>) {
             if p.extension().map(|e| e == "lua").unwrap_or(false) {
                 if let Ok(code) = std::fs::read_to_string(&p) {
                     let mut acc = Acc::default();
-                    check_source(&mut acc, &mut model, &code, false, 0, "corpus");
+                    for mode in ConfigMode::ALL {
+                        check_source_mode(&mut acc, &mut model, &code, false, 0, "corpus", mode);
+                    }
                     acc.flush(report);
                     report.count("corpus_sources", 1);
                 }
@@ -2078,13 +2209,19 @@ pub fn run(report: &mut Report, replay: Option<&str>) {
     report.exhaustive.insert("is_single_line_comment over {[,=,a,é,]}^≤6 after `--`".into(), true);
 
     for code in FIXED_SOURCES {
-        if !check_source(&mut acc, &mut model, code, false, 0, "fixed") {
-            acc.notes.push(format!("fixed source does not parse: {:?}", code));
+        for mode in ConfigMode::ALL {
+            if !check_source_mode(&mut acc, &mut model, code, false, 0, "fixed", mode) {
+                acc.notes.push(format!("fixed source does not parse: {:?}", code));
+                break;
+            }
         }
     }
     for code in TYPED_SOURCES {
-        if !check_source(&mut acc, &mut model, code, true, 0, "fixed-typed") {
-            acc.notes.push(format!("typed fixed source does not parse: {:?}", code));
+        for mode in ConfigMode::ALL {
+            if !check_source_mode(&mut acc, &mut model, code, true, 0, "fixed-typed", mode) {
+                acc.notes.push(format!("typed fixed source does not parse: {:?}", code));
+                break;
+            }
         }
     }
     acc.flush(report);
